@@ -318,6 +318,59 @@ func checkC16(c *core.Ctx) {
 		}
 	})
 
+	// ---- refreshing a merged dictionary in place: `info chord list --chord all.yml --chord new.yml -o all.yml` (and
+	// the attribute twin) write what they print to the standard output, and the result is the dictionary again
+	c.Stream("listinplace", c.N(12, 120), func(i int, r *rand.Rand) {
+		f := genForest(r, "p")
+		if len(f.chords) < 2 || len(f.attrs) < 2 {
+			return
+		}
+		h := len(f.chords) / 2
+		dir := c.Scratch.Path(fmt.Sprintf("inplace-%d", i))
+		os.MkdirAll(dir, 0o755)
+		write := func(name string, b []byte) string {
+			fn := dir + "/" + name
+			os.WriteFile(fn, b, 0o644)
+			return fn
+		}
+		attrFile := write("attrs.yml", attrsYAML(f.attrs))
+		all, add := chordsYAML(f.chords[:h]), chordsYAML(f.chords[h:])
+		// the second file may extend chords of the first: the first one is the file that is overwritten
+		allFile, addFile := write("all.yml", all), write("new.yml", add)
+		for _, lc := range []struct {
+			name   string
+			args   []string
+			target string
+			orig   []byte
+		}{
+			{"info chord list", []string{"info", "chord", "list", "--attr", attrFile, "--chord", allFile, "--chord", addFile}, allFile, all},
+			{"info attr list", []string{"info", "attr", "list", "--attr", attrFile}, attrFile, attrsYAML(f.attrs)},
+		} {
+			ref := run(c, nil, lc.args...)
+			c.Eval(1)
+			if infra(c, ref) {
+				return
+			}
+			if !ref.OK() {
+				c.Violate("listinplace", i, "listinplace:refused:"+lc.name, fmt.Sprintf("`crd %s` refuses a consistent dictionary", lc.name), obs(ref))
+				return
+			}
+			res := run(c, nil, append(append([]string{}, lc.args...), "-o", lc.target)...)
+			c.Eval(1)
+			if infra(c, res) {
+				return
+			}
+			got, _ := os.ReadFile(lc.target)
+			os.WriteFile(lc.target, lc.orig, 0o644)
+			if !res.OK() || !bytes.Equal(got, ref.Stdout) {
+				c.Violate("listinplace", i, "listinplace:differs:"+lc.name, fmt.Sprintf("`crd %s ... -o <one of its own definition files>`: success=%v, the file holds %d bytes, the standard output of the same command %d", lc.name, res.OK(), len(got), len(ref.Stdout)),
+					map[string]any{"argv": runner.ShellQuote(append(append([]string{}, lc.args...), "-o", lc.target)), "run": obs(res), "file": short(string(got), 600), "stdout": short(string(ref.Stdout), 600)})
+				return
+			}
+		}
+		c.Nontrivial(fmt.Sprintf("listinplace#%d", i))
+	})
+
 	// ---- several files redefining the same chord and attribute: the file given last wins (files are
 	// named so that command-line order is the reverse of their alphabetical order)
 	c.Stream("fileorder", c.N(40, 600), func(i int, r *rand.Rand) {
@@ -772,6 +825,10 @@ func writeDictFiles(c *core.Ctx, r *rand.Rand, f forest) []string {
 func userForestCase(c *core.Ctx, i int, r *rand.Rand) {
 	f := genForest(r, fmt.Sprint(i%10))
 	args := writeDictFiles(c, r, f)
+	if r.Intn(4) == 0 {
+		// the dictionary means the same with --debug (what is logged must not touch what is built)
+		args = append(args, "--debug")
+	}
 	sig := fmt.Sprintf("forest#%d", i)
 	desc := map[string]any{"attr_yaml": short(string(attrsYAML(f.attrs)), 1500), "chord_yaml": short(string(chordsYAML(f.chords)), 2500)}
 	maxDepth, rich := 0, false
@@ -863,7 +920,7 @@ func userForestCase(c *core.Ctx, i int, r *rand.Rand) {
 
 // brokenForest generates a dictionary with one injected inconsistency.
 func brokenForest(i int, r *rand.Rand) (forest, string, bool) {
-	kinds := []string{"dangling-attr", "dangling-extends", "cycle1", "cycle2", "cycle3", "cycle4", "cycle5", "unnamed-chord", "unnamed-attr", "tail1", "tail2", "tail3", "shadowed-dangling-extends", "shadowed-dangling-attr", "unnamed-chord-with-display", "shadowed-cycle1", "shadowed-cycle2"}
+	kinds := []string{"dangling-attr", "dangling-extends", "cycle1", "cycle2", "cycle3", "cycle4", "cycle5", "unnamed-chord", "unnamed-attr", "tail1", "tail2", "tail3", "shadowed-dangling-extends", "shadowed-dangling-attr", "unnamed-chord-with-display", "shadowed-cycle1", "shadowed-cycle2", "extends-names-attribute", "extends-names-user-attribute", "attribute-names-chord", "attribute-names-user-chord", "attribute-names-symbol"}
 	kind := kinds[i%len(kinds)]
 	used := (i/len(kinds))%2 == 0
 	f := genForest(r, "b")
@@ -874,6 +931,17 @@ func brokenForest(i int, r *rand.Rand) (forest, string, bool) {
 	case "dangling-extends":
 		broken.Extends = "NoSuchChord"
 		broken.Attrs = []string{f.attrs[0].Name}
+	case "extends-names-attribute", "extends-names-user-attribute":
+		// a reference into the wrong table: `extends` names something that is defined, but as an attribute
+		broken.Extends = "Major7"
+		if kind == "extends-names-user-attribute" {
+			broken.Extends = f.attrs[len(f.attrs)-1].Name
+		}
+		broken.Attrs = []string{f.attrs[0].Name}
+	case "attribute-names-chord", "attribute-names-user-chord", "attribute-names-symbol":
+		// ... and an attribute reference names something that is defined as a chord
+		other := map[string]string{"attribute-names-chord": "MinorTriad", "attribute-names-user-chord": f.chords[0].Name, "attribute-names-symbol": "sus4"}[kind]
+		broken.Attrs = []string{f.attrs[0].Name, other}
 	case "unnamed-chord":
 		broken.Name = "\x00"
 		broken.Attrs = []string{f.attrs[0].Name}
